@@ -26,6 +26,80 @@ def src_of(node):
         return ast.dump(node)
 
 
+def _reflect_norm(tree):
+    """Reflection over a *literal* set of attribute names is spelled out, so that every engine sees plain attribute reads and
+    writes:  `for n in ('a', 'b'): setattr(o, n, f(getattr(p, n)))`  (the tuple written in place or bound once at module level
+    in the same module, loop body without break / continue) is unrolled, then `getattr(o, 'a')` -> `o.a`, a statement
+    `setattr(o, 'a', v)` -> `o.a = v`.  Anything else (a computed name) is left as it is and reported by CENSUS."""
+    import copy as _copy
+    consts = {}
+    for st in tree.body:
+        if isinstance(st, ast.Assign) and len(st.targets) == 1 and isinstance(st.targets[0], ast.Name) and isinstance(st.value, (ast.Tuple, ast.List)) \
+                and st.value.elts and all(isinstance(e, ast.Constant) and isinstance(e.value, str) and e.value.isidentifier() for e in st.value.elts):
+            consts[st.targets[0].id] = None if st.targets[0].id in consts else st.value
+    reflective = ('getattr', 'setattr', 'hasattr')
+
+    def uses_reflect(body, var):
+        for st in body:
+            for n in ast.walk(st):
+                if isinstance(n, ast.Call) and isinstance(n.func, ast.Name) and n.func.id in reflective and len(n.args) >= 2 \
+                        and isinstance(n.args[1], ast.Name) and n.args[1].id == var:
+                    return True
+        return False
+
+    class Sub(ast.NodeTransformer):
+        def __init__(self, var, value):
+            self.var, self.value = var, value
+
+        def visit_Name(self, n):
+            if n.id == self.var and isinstance(n.ctx, ast.Load):
+                return ast.copy_location(ast.Constant(value=self.value), n)
+            return n
+
+    class Unroll(ast.NodeTransformer):
+        changed = False
+
+        def visit_For(self, st):
+            self.generic_visit(st)
+            it = st.iter
+            if isinstance(it, ast.Name) and consts.get(it.id) is not None:
+                it = consts[it.id]
+            if isinstance(st.target, ast.Name) and isinstance(it, (ast.Tuple, ast.List)) and it.elts and not st.orelse \
+                    and all(isinstance(e, ast.Constant) and isinstance(e.value, str) and e.value.isidentifier() for e in it.elts) \
+                    and uses_reflect(st.body, st.target.id) \
+                    and not any(isinstance(x, (ast.Break, ast.Continue)) or (isinstance(x, ast.Name) and x.id == st.target.id and isinstance(x.ctx, ast.Store))
+                                for b in st.body for x in ast.walk(b)):
+                out = []
+                for e in it.elts:
+                    for b in st.body:
+                        out.append(Sub(st.target.id, e.value).visit(_copy.deepcopy(b)))
+                Unroll.changed = True
+                return out
+            return st
+
+    class Attr(ast.NodeTransformer):
+        def visit_Expr(self, st):
+            self.generic_visit(st)
+            c = st.value
+            if isinstance(c, ast.Call) and isinstance(c.func, ast.Name) and c.func.id == 'setattr' and len(c.args) == 3 and not c.keywords \
+                    and isinstance(c.args[1], ast.Constant) and isinstance(c.args[1].value, str) and c.args[1].value.isidentifier():
+                new = ast.Assign(targets=[ast.Attribute(value=c.args[0], attr=c.args[1].value, ctx=ast.Store())], value=c.args[2])
+                return ast.fix_missing_locations(ast.copy_location(new, st))
+            return st
+
+        def visit_Call(self, c):
+            self.generic_visit(c)
+            if isinstance(c.func, ast.Name) and c.func.id == 'getattr' and len(c.args) == 2 and not c.keywords \
+                    and isinstance(c.args[1], ast.Constant) and isinstance(c.args[1].value, str) and c.args[1].value.isidentifier():
+                return ast.fix_missing_locations(ast.copy_location(ast.Attribute(value=c.args[0], attr=c.args[1].value, ctx=ast.Load()), c))
+            return c
+    if not any(isinstance(n, ast.Call) and isinstance(n.func, ast.Name) and n.func.id in ('setattr', 'getattr') for n in ast.walk(tree)):
+        return tree
+    tree = Unroll().visit(tree)
+    tree = Attr().visit(tree)
+    return ast.fix_missing_locations(tree)
+
+
 class Module:
     def __init__(self, name, path, relpath, src):
         self.name = name
@@ -33,7 +107,7 @@ class Module:
         self.relpath = relpath
         self.src = src
         self.sha256 = hashlib.sha256(src.encode('utf-8')).hexdigest()
-        self.tree = ast.parse(src, filename=path)
+        self.tree = _reflect_norm(ast.parse(src, filename=path))
         self.is_package = os.path.basename(path) == '__init__.py'
         self.bindings = {}     # name -> Binding
         self.funcs = {}        # top-level functions
